@@ -25,6 +25,7 @@ class Report:
         self.terminator = None  # number of terminator bits found (all zero)
         self.after = None       # bits after terminator (padding as found)
         self.payload = None     # concatenated payload bytes
+        self.partial = None     # bytes read from a segment that ran out of data (cut stream)
 
     def bad(self, msg):
         self.problems.append(msg)
@@ -188,6 +189,7 @@ def parse_stream(rep):
     micro = T.is_micro(ver)
     segs = []
     pending_eci = None
+    data = bytearray()
 
     def take(k):
         nonlocal p
@@ -323,6 +325,10 @@ def parse_stream(rep):
             segs.append(seg)
     except EOFError:
         rep.bad('data stream exhausted inside a segment (content cut?)')
+        try:
+            rep.partial = bytes(data)        # what could be read of the segment in progress
+        except Exception:
+            rep.partial = b''
     if pending_eci is not None:
         rep.bad('dangling ECI header')
     rep.segments = segs
